@@ -21,7 +21,7 @@ try:
     boxes = []
     for n in (1, 2, 3):
         for pat in itertools.product('ilu', repeat=n):
-            for w in (0.2, 5.0):
+            for w in (0.2, 5.0, 100.0):
                 lo = np.array([0.0 if p == 'l' else -w for p in pat]); hi = np.array([0.0 if p == 'u' else w for p in pat])
                 boxes.append((lo, hi))
     np.random.seed(0)
